@@ -88,7 +88,7 @@ class C17(Base):
         ops = []
         for c in range(k):
             if rng.random() < 0.85:
-                ops.append("start:%d:%d:%s" % (c, rng.randint(1, n + 2), rng.choice("vvvsmnez")))
+                ops.append("start:%d:%d:%s" % (c, rng.randint(1, n + 2), rng.choice("vvvsmnezw")))
         rng.shuffle(ops)
         ln = rng.randint(3, maxlen)
         wf = rng.choice([0.15, 0.3, 0.5])
@@ -97,7 +97,7 @@ class C17(Base):
             if r < wf:
                 ops.append("fire")
             elif r < wf + 0.12:
-                ops.append("start:%d:%d:%s" % (rng.randrange(k), rng.randint(1, n + 2), rng.choice("vvvsmnez")))
+                ops.append("start:%d:%d:%s" % (rng.randrange(k), rng.randint(1, n + 2), rng.choice("vvvsmnezw")))
             else:
                 ops.append("poll:%d" % rng.randrange(k))
         if rng.random() < 0.25:
@@ -137,7 +137,7 @@ class C17(Base):
             return [c2 for c2 in range(k) if group_of(c2, joined) == group_of(c, joined)]
         for c in range(k):
             depth[c] = rng.randint(1, n + 1)
-            ops.append("start:%d:%d:%s" % (c, depth[c], rng.choice("vvsmnez")))
+            ops.append("start:%d:%d:%s" % (c, depth[c], rng.choice("vvsmnezw")))
         # expected-behaviour simulation (reference executor)
         need = list(needs) + [end]
         cached = 0
@@ -207,7 +207,7 @@ class C17(Base):
             c = rng.randrange(k)
             r = rng.random()
             if r < 0.8:
-                ops.append("start:%d:%d:%s" % (c, rng.randint(1, n + 2), rng.choice("vvsmnez")))
+                ops.append("start:%d:%d:%s" % (c, rng.randint(1, n + 2), rng.choice("vvsmnezw")))
                 if rng.random() < 0.85:
                     ops.append("poll:%d" % c)
             elif r < 0.95:
@@ -524,4 +524,4 @@ class C17(Base):
 
 
 P = C17()
-P.RULE = P.RULE + ' In one case out of seven the source yields two bundles per locale (upper-case mode letter; same observations).'
+P.RULE = P.RULE + ' In one case out of seven the source yields two bundles per locale (upper-case mode letter; same observations). Batch requests include a key that formats to the empty string (api z) and a key that is value-less in every earlier bundle and has a value from its own depth on (api w).'
